@@ -262,7 +262,15 @@ func genPrioScenario(rng *rand.Rand, g prioGen) PrioScenario {
 			outCap = sc.OutCap
 		}
 		m := (groups+3)*H + outCap + 2
+		smallBuffers := H <= 16 && rng.IntN(3) == 0
 		for _, p := range prios {
+			if smallBuffers {
+				// a small buffer kept full by parked writers: more of them than the discipline
+				// can take between two quiescent points of the stepper
+				c := 1 + rng.IntN(3)
+				sc.Inputs = append(sc.Inputs, PInputSpec{P: p, Cap: c, Prefill: c, Writers: 2*H + outCap + 4})
+				continue
+			}
 			sc.Inputs = append(sc.Inputs, PInputSpec{P: p, Cap: m, Prefill: m})
 		}
 		sc.Saturate = true
@@ -275,6 +283,11 @@ func genPrioScenario(rng *rand.Rand, g prioGen) PrioScenario {
 			}
 			if rng.IntN(3) == 0 { // a second group landing while the first is being consumed
 				sc.Script = append(sc.Script, POp{K: "R", Mode: modes[rng.IntN(len(modes))], N: 1 + rng.IntN(H)})
+			}
+			if sc.Ver == "v1" && rng.IntN(4) == 0 {
+				// AddInput with the same channel for a configured priority: the configured
+				// priorities, the inputs and the shares all stay what they were
+				sc.Script = append(sc.Script, POp{K: "readd", P: prios[rng.IntN(len(prios))]})
 			}
 			sc.Script = append(sc.Script, POp{K: "D"}, POp{K: "X"})
 		}
@@ -503,6 +516,20 @@ func genPrioScenario(rng *rand.Rand, g prioGen) PrioScenario {
 		}
 		removed := []uint{}
 		emit := func() {
+			if rng.IntN(7) == 0 {
+				// AddInput with the channel that is registered already: must change nothing
+				var ps []uint
+				for p, ok := range present {
+					if ok {
+						ps = append(ps, p)
+					}
+				}
+				if len(ps) > 0 {
+					sort.Slice(ps, func(i, j int) bool { return ps[i] < ps[j] })
+					out = append(out, POp{K: "readd", P: ps[rng.IntN(len(ps))]})
+					return
+				}
+			}
 			switch rng.IntN(5) {
 			case 0: // add a new priority
 				p := extra[rng.IntN(len(extra))]
